@@ -662,7 +662,7 @@ def mk_app2(cx, pit, face=None):
 @contract
 class on_nack(Contract):
     fn = appv2.NDNApp._on_nack
-    props = ('C03', 'C10')
+    props = ('C03', 'C10', 'C06')
     doc = ('_on_nack(name, reason): the pending node is looked up under the name without its implicit-digest component (and only '
            'that component is dropped), nack_interest(reason, digest) is called on it exactly once with the digest of the Nack name '
            '(b\'\' without one), and the node is removed from the table iff nack_interest reports that nothing remains; a Nack for an '
@@ -1101,7 +1101,7 @@ def _od_havoc2(it, env, g):
 @contract
 class on_data(Contract):
     fn = appv2.NDNApp._on_data
-    props = ('C03',)
+    props = ('C03', 'C06')
     doc = ('_on_data, for ANY number of pending nodes on prefixes of the Data name: every such node is offered this Data exactly once '
            '(node.satisfy) with is_prefix = (its name differs from the Data name); exactly the nodes that report nothing left pending '
            'are removed from the table, each once; nothing is raised')
